@@ -12,6 +12,7 @@ pub mod c07;
 pub mod c03;
 pub mod c09;
 pub mod c11;
+pub mod c18;
 pub mod c20;
 
 pub fn run(prop: &str, ctx: &mut Ctx) -> Option<Report> {
@@ -27,10 +28,14 @@ pub fn run(prop: &str, ctx: &mut Ctx) -> Option<Report> {
         "C03" => Some(c03::run(ctx)),
         "C09" => Some(c09::run(ctx)),
         "C11" => Some(c11::run(ctx)),
+        "C18" => Some(c18::run(ctx)),
         "C20" => Some(c20::run(ctx)),
         _ => None,
     }
 }
+
+/// file:line of the most recent panic in this process (set by the panic hook in main.rs).
+pub static LAST_PANIC_LOC: std::sync::Mutex<String> = std::sync::Mutex::new(String::new());
 
 /// Run `f` catching panics of the code under test; `Err(msg)` carries the panic message.
 pub fn guarded<T>(f: impl FnOnce() -> T) -> Result<T, String> {
@@ -47,6 +52,15 @@ pub fn guarded<T>(f: impl FnOnce() -> T) -> Result<T, String> {
             Err(msg)
         }
     }
+}
+
+/// Like `guarded`, with the panic location appended (only meaningful when no other thread panics
+/// at the same time).
+pub fn guarded_loc<T>(f: impl FnOnce() -> T) -> Result<T, String> {
+    guarded(f).map_err(|m| {
+        let loc = LAST_PANIC_LOC.lock().map(|g| g.clone()).unwrap_or_default();
+        format!("{m} @ {loc}")
+    })
 }
 
 /// Run `n` independent cases on `threads` worker threads; each worker has its own model driver
